@@ -79,7 +79,7 @@ def r08_2(ctx: Ctx) -> None:
     fi = pm.func("PageRenderer._render_column_headers")
     branches = [n for n in ast.walk(fi.node) if isinstance(n, ast.If) and "header_copy.text is None" in unparse(n.test) and "as_colheader" in unparse(n.test)]
     if len(branches) != 1:
-        ctx.violation("R08.2", fi.short, "auto header branch", fi.where(), "the automatic column header (column names) is no longer generated under `text is None and as_colheader`")
+        ctx.gap("R08.2", "the automatic column header branch (`text is None and as_colheader`) could not be re-identified in _render_column_headers")
         return
     br = branches[0]
     src = [unparse(a.value) for a in ast.walk(br) if isinstance(a, ast.Assign) and unparse(a.targets[0]) in ("page_df", "columns")]
